@@ -484,7 +484,7 @@ func enrollFaultWorld(et bool) *world {
 			return fmt.Sprintf("fault-free Register delivered Conn=%v Err=%v", r.Conn != nil, r.Err), "ctl:Register:result"
 		}
 		if len(mcsys.L.Violations) > 0 {
-			return mcsys.L.Violations[0], mcsys.L.Sigs[0]
+			return ledgerFirst("")
 		}
 		return "", ""
 	})
